@@ -20,6 +20,8 @@
 #include <unistd.h>
 #include <ctype.h>
 #include <sched.h>
+#include <sys/ioctl.h>
+#include <linux/sockios.h>
 #include <sys/socket.h>
 #include <sys/uio.h>
 #include <netinet/in.h>
@@ -37,6 +39,8 @@ int __real_close(int);
 int __real_socket(int, int, int);
 int __real_connect(int, const struct sockaddr *, socklen_t);
 int __real_accept(int, struct sockaddr *, socklen_t *);
+int __real_ioctl(int, unsigned long, ...);
+int __real_clock_gettime(clockid_t, struct timespec *);
 
 static struct event_base *base;
 static long cs = -1;          /* current case id */
@@ -199,6 +203,7 @@ static void peer_service(struct peer *p)
 		if (n > 0) {
 			if (quietrx) TR("prxq %d %zd", p->id, n); else TR("prx %d %s", p->id, hexs(rxbuf, (size_t)n));
 			p->since += n; p->total += n; nprogress++;
+			{ int one = 1; setsockopt(p->fd, IPPROTO_TCP, TCP_QUICKACK, &one, sizeof(one)); }
 			peer_run_prog(p);
 			continue;
 		}
@@ -489,10 +494,39 @@ static void do_mk(struct rq *q, int con, unsigned type, const char *uri)
 }
 
 /* ------------------------------------------------------------ stepping */
+/* Sockets the library does I/O on (learnt through the sysfault observer), so that the idle
+ * test can ask the kernel whether bytes are still on their way: loopback TCP hands bulk data to
+ * the receiver from a tasklet (TSQ) / the softirq backlog, which on a loaded machine can run
+ * after the writer's syscall returned. */
+#define MAXFD 4096
+static unsigned char libfd[MAXFD];
+static void sf_obs(int sym, int fd, long req, long res)
+{
+	(void)req;
+	if (sym == SF_close) { if (fd >= 0 && fd < MAXFD) libfd[fd] = 0; return; }
+	if (sym == SF_accept4 || sym == SF_accept) { if (res >= 0 && res < MAXFD) libfd[res] = 1; return; }
+	if ((sym == SF_connect || sym == SF_writev || sym == SF_readv) && fd >= 0 && fd < MAXFD) libfd[fd] = 1;
+}
+/* 2: some socket still has unsent bytes queued; 1: sent but not yet acknowledged; 0: nothing in flight */
+static int inflight(void)
+{
+	int i, worst = 0, n;
+	for (i = 0; i < MAXFD + MAXPEER; i++) {
+		int fd = i < MAXFD ? (libfd[i] ? i : -1) : (peers[i - MAXFD].used ? peers[i - MAXFD].fd : -1);
+		if (fd < 0) continue;
+		n = 0;
+		if (__real_ioctl(fd, SIOCOUTQNSD, &n) == 0 && n > 0) return 2;
+		n = 0;
+		if (__real_ioctl(fd, SIOCOUTQ, &n) == 0 && n > 0) worst = 1;
+	}
+	return worst;
+}
 static void step_idle(void)
 {
-	int it, quiet = 0;
+	int it, quiet = 0, grace = 0;
+	struct timespec t0, t1;
 	if (!base) return;
+	__real_clock_gettime(CLOCK_MONOTONIC, &t0);
 	/* idle = two consecutive rounds (library loop + peer service) without any callback or peer
 	 * activity, with a yield in between: on a heavily loaded machine the loopback ACK/window
 	 * update that makes a socket writable again may be processed by ksoftirqd a moment later */
@@ -503,10 +537,23 @@ static void step_idle(void)
 		service_peers();
 		if (stopped) break;
 		if (nprogress == before) {
+			int fl = inflight();
+			if (fl == 2 || (fl == 1 && grace < 20)) {
+				/* bytes on their way: give the kernel real time (bounded; watchdog 3 s) */
+				struct timespec ts = { 0, 50000 };
+				if (fl == 1) grace++;
+				nanosleep(&ts, NULL);
+				__real_clock_gettime(CLOCK_MONOTONIC, &t1);
+				if (t1.tv_sec - t0.tv_sec >= 3) { TR("inflight-timeout"); break; }
+				it--;            /* waiting is not a loop round */
+				continue;
+			}
 			if (++quiet >= 2) break;
 			sched_yield();
-		} else
+		} else {
 			quiet = 0;
+			grace = 0;
+		}
 	}
 	if (it >= 4000) TR("noidle");
 }
@@ -533,6 +580,7 @@ static void case_begin(long id)
 	cs = id; vh_cur_case = id;
 	stopped = 0; blocked = 0; quietrx = 0; next_auto_peer = 0; next_token = 0; nexts = 0;
 	sf_reset();
+	memset(libfd, 0, sizeof(libfd));
 	memset(peers, 0, sizeof(peers)); memset(lsns, 0, sizeof(lsns)); memset(srvs, 0, sizeof(srvs));
 	memset(cbs, 0, sizeof(cbs)); memset(helds, 0, sizeof(helds)); memset(cons, 0, sizeof(cons));
 	memset(rqs, 0, sizeof(rqs)); memset(mkargs, 0, sizeof(mkargs));
@@ -859,6 +907,7 @@ int main(int argc, char **argv)
 	vclk_enable(1000000);
 	vclk_wait_hook = wait_hook;
 	vclk_forever_hook = forever_hook;
+	sf_observer = sf_obs;
 	if (!vh_opt.arg) { fprintf(stderr, "usage: h_httpmsg --arg script\n"); return 2; }
 	warmup();
 	vh_stat_add("cases", -1);
